@@ -25,7 +25,8 @@ META = {
              "non-trivial = >=2 chunk writes were in flight or queued behind the lock at the same time"),
     "abstract_measure": "distinct (writes in flight, lock held) pairs seen at target operations",
     "gates": {"quick": {"lock_contended": 500, "rmw_target": 1000, "shared_target": 500,
-                        "deferred_compute": 500, "unlocked_atomic": 300, "npy_stack": 200},
+                        "deferred_compute": 500, "unlocked_atomic": 300, "npy_stack": 200,
+                        "rmw_target_with_chunks_attr": 500},
               "thorough": {"lock_contended": 500}},
     "anchors": ["dask/array/core.py", "dask/utils.py"],
     "real": ["dask.array.store / load_store_chunk / load_chunk / fuse_slice", "dask.array graph construction "
@@ -77,6 +78,7 @@ def run_one(tape, cfg):
         shared = nsrc > 1 and tape.chance(1, 2, "shared")
         trailing = tuple(1 + tape.draw(3, "dim") for _ in range(ndim - 1))
         g = (1, 2, 3, 4, 8)[tape.draw(5, "g")]
+        advertise = tape.chance(1, 2, "advertise_chunks")
         lock_kind = ("true", "simlock", "serializable", "false")[tape.draw(4, "lock")]
         if lock_kind == "false":
             g = 1
@@ -93,7 +95,7 @@ def run_one(tape, cfg):
             chunks = tuple(split(tape, s) for s in shape)
             srcs.append({"shape": shape, "chunks": chunks, "off": tuple(tape.draw(3, "off") for _ in shape),
                          "pad": tuple(tape.draw(3, "pad") for _ in shape)})
-    wl = {"ndim": ndim, "shared": shared, "g": g, "lock": lock_kind, "compute": compute,
+    wl = {"ndim": ndim, "shared": shared, "g": g, "advertise_chunks": advertise, "lock": lock_kind, "compute": compute,
           "return_stored": return_stored, "regions": use_regions, "nworkers": nworkers,
           "policy": policy, "sources": srcs, "npy": npy}
     out.decoded = wl
@@ -162,7 +164,7 @@ def run_one(tape, cfg):
                     total0 = sum(s["shape"][0] for s in srcs) + srcs[0]["off"][0] + srcs[0]["pad"][0]
                     tshape = (total0,) + tuple(d + o + p for d, o, p in
                                                zip(srcs[0]["shape"][1:], srcs[0]["off"][1:], srcs[0]["pad"][1:]))
-                    tgt = SimTarget(tshape, "i8", g=g)
+                    tgt = SimTarget(tshape, "i8", g=g, advertise=advertise)
                     want = tgt.data.copy()
                     pos = srcs[0]["off"][0]
                     for s, a in zip(srcs, arrays):
@@ -180,7 +182,7 @@ def run_one(tape, cfg):
                             reg = tuple(slice(o, o + d) for d, o in zip(s["shape"], s["off"]))
                         else:
                             tshape, reg = s["shape"], None
-                        tgt = SimTarget(tshape, "i8", g=g)
+                        tgt = SimTarget(tshape, "i8", g=g, advertise=advertise)
                         want = tgt.data.copy()
                         if reg is None:
                             want[...] = a
@@ -191,6 +193,8 @@ def run_one(tape, cfg):
                         expect.append((tgt, want))
                 if g > 1:
                     out.probe("rmw_target")
+                    if advertise:
+                        out.probe("rmw_target_with_chunks_attr")
                 if lock_kind == "false":
                     out.probe("unlocked_atomic")
                 if not compute:
